@@ -63,16 +63,26 @@ def run(ctx):
     failures = []
     corr = core.Corr("Learner1D.ask~L1D.lean")
     cases = c01.gen_cases(ctx.rng, ctx.n(160, 3000), ctx.n(50, 110))
+    # C02 quantifies over every reachable state: half of the histories also take the batch path of tell_many while a domain
+    # end point is neither known nor pending (C01 keeps its proviso)
+    for i, c in enumerate(cases):
+        if i % 2:
+            c["allow_unfixed_batch"] = True
     results = core.pmap(run_case, cases)
     c01.collect(results, corr, failures, ctx.prop_id)
     live = [r for r in results if r["lines"]]
     core.lockstep(corr, live, canon_model=core.canon_bits, shards=16)
     if (not proof.ok or not corr.ok) and not failures:
-        extra = core.pmap(run_case, c01.gen_cases(ctx.rng, ctx.n(600, 3000), 110))
+        more = c01.gen_cases(ctx.rng, ctx.n(600, 3000), 110)
+        for i, c in enumerate(more):
+            if i % 2:
+                c["allow_unfixed_batch"] = True
+        extra = core.pmap(run_case, more)
         c01.collect(extra, core.Corr("deep"), failures, ctx.prop_id)
     return core.conclude(
         ctx, proof, [corr], failures,
-        rule="same seeded Learner1D histories as C01; after every operation ask(n, tell_pending=False) for two request sizes n in "
+        rule="same seeded Learner1D histories as C01, half of them also with batched tells before the domain end points are known "
+             "or pending; after every operation ask(n, tell_pending=False) for two request sizes n in "
              "{0..3} x {4,5,6,8,13} is checked against the property on the state reached; non-trivial = distinct op-line sequence",
         samples=[r["lines"][:4] for r in live[:2]],
         evaluations=sum(r["stats"].get("asks_checked", 0) for r in results), distinct=len(corr.distinct),
